@@ -18,7 +18,12 @@ M_TAGS = dict(M_PLAIN, tags=[
     {"token": [HI], "cats": [[[70]], [[71], [72], [73]]], "cng": [], "tng": [{"ng": [3], "tw": [{"rel": 0, "w": [1, 5, 2]}]}], "bias": [2, 0, 1]}])
 
 LINES = {"plain": "aああa", "multi": "あaあ", "half": "a1-b", "spaces": "a あ", "slash": "a/あ\\a", "empty": "", "nul": "a\0あ",
-         "cr": "aあ\r", "one": "あ", "long": "ああaaあa1あ"}
+         "cr": "aあ\r", "one": "あ", "long": "ああaaあa1あ", "fullw": "あ｡あ～", "dash": "コ―ヒ－あ", "onea": "a", "oneslash": "/"}
+# a model that splits everywhere (bias only) with tag models: filters that join tokens change which tokens exist
+M_EVAL = {"bias": 5, "cw": 1, "tw": 1, "cng": [], "tng": [], "dict": [], "tags": [
+    {"token": [HI], "cats": [[[70]], [[71], [72]]], "cng": [], "tng": [], "bias": [1, 2]},
+    {"token": [A], "cats": [[[68], [69]]], "cng": [], "tng": [], "bias": [2, 1]},
+    {"token": [65345], "cats": [[[68], [69]]], "cng": [], "tng": [], "bias": [2, 1]}]}
 
 
 def stdin_of(names, final_newline):
@@ -43,7 +48,7 @@ def run_predict(cli, model_path, flags, ws, data):
 def predict_tool(ctx, binp, cli, wd):
     q = ctx.quick
     models = {}
-    for name, m in (("plain", M_PLAIN), ("tags", M_TAGS)):
+    for name, m in (("plain", M_PLAIN), ("tags", M_TAGS), ("eval", M_EVAL)):
         mj, mz = os.path.join(wd, name + ".json"), os.path.join(wd, name + ".zst")
         json.dump(m, open(mj, "w"))
         vlib.run_harness(binp, ["mkmodel", mj, mz], name="mkmodel")
@@ -51,7 +56,7 @@ def predict_tool(ctx, binp, cli, wd):
     flagnames = ["no_norm", "predict_tags", "scores", "tag_scores"]
     allflags = [dict(zip(flagnames, bits)) for bits in itertools.product([False, True], repeat=4)]
     names = list(LINES.keys())
-    streams = [([n], True) for n in names] + [(["plain", "empty", "multi"], True), (["nul", "plain"], True), (["plain", "nul"], False),
+    streams = [([n], True) for n in names] + [(["fullw", "dash"], False), (["onea", "oneslash", "one"], True), (["plain", "empty", "multi"], True), (["nul", "plain"], True), (["plain", "nul"], False),
                                               (["empty", "half", "spaces"], True), (["slash", "cr", "one"], False), (["long", "half"], True)]
     rnd = random.Random(ctx.seed)
     runs = []
@@ -60,7 +65,7 @@ def predict_tool(ctx, binp, cli, wd):
             # must-run: rejected first / middle / last line under every flag set
             for st in [(["empty", "plain", "multi"], True), (["plain", "nul", "half"], True), (["multi", "plain", "empty"], True)]:
                 runs.append((mname, fl, [], st))
-            extra = rnd.sample(streams, 2 if q else len(streams))
+            extra = streams if not q else [st for k, st in enumerate(streams) if (k + len(runs)) % 2 == 0]
             for st in extra:
                 ws = rnd.sample(["D", "R", "H", "T", "K", "O", "G"], rnd.randint(0, 2))
                 runs.append((mname, fl, ws, st))
@@ -129,6 +134,12 @@ def evaluate_tool(ctx, binp, cli, wd, models):
     for no_norm in (False, True):
         for metric in ("char", "word"):
             runs.append(("tags", refs_tags, no_norm, True, metric, []))
+    # tokens joined by a filter after prediction: tags must be those of the JOINED token (library order: filters, then fill_tags)
+    refs_join = ["ああ a/D/Z", "あ/F/G aa", "あ/F/H あ/F/G a/E", "ああ/F/G ａ/D"]
+    for no_norm in (False, True):
+        for metric in ("char", "word"):
+            for ws in (["H"], ["R"], ["H", "R"], []):
+                runs.append(("eval", refs_join, no_norm, True, metric, ws))
     send = [{"id": i, "kind": "pipeline", "mode": "evaluate", "model": models[m][0], "no_norm": nn, "predict_tags": pt, "wsconst": ws,
              "lines": [[ord(c) for c in ln] for ln in refs]} for i, (m, refs, nn, pt, metric, ws) in enumerate(runs)]
     lib = vlib.run_replay(binp, send, "C20-evalpipe")
